@@ -5,6 +5,9 @@
 #define RLBOX_SINGLE_THREADED_INVOCATIONS
 #include <memory>
 #include <string>
+#ifndef M2_VERIF
+#  define RLBOX_USE_STATIC_CALLS() rlbox_noop_sandbox_lookup_symbol
+#endif
 #include "rlbox.hpp"
 #ifdef M2_VERIF
 #  include "verif_sandbox.hpp"
@@ -12,7 +15,6 @@ using S = rlbox::rlbox_verif32_sandbox;
 struct S2cfg : rlbox::verif_cfg32 {};
 using S2 = rlbox::rlbox_verif_sandbox<S2cfg>;          // a different sandbox TYPE
 #else
-#  define RLBOX_USE_STATIC_CALLS() rlbox_noop_sandbox_lookup_symbol
 #  include "rlbox_noop_sandbox.hpp"
 using S = rlbox::rlbox_noop_sandbox;
 struct S2 : rlbox::rlbox_noop_sandbox {};               // a different sandbox TYPE
